@@ -11,14 +11,14 @@ from vlib.shard import Acc
 PROP = "C12"
 META = {
     "level": "exploration",
-    "claim": "Held on the executed runs: in histories mixing operations inside the root, outside it (another folder, prefix-sibling folders '/localX' '/local2', the account root) and moves across the boundary in both directions (files, and folders with children in windows of their own), with roots given by path or by id, event filtering on or off and a custom translate that declines a subfolder, every engine-issued create/mkdir/upload/rename/delete targets an object whose path (before and, for rename, after) lies inside that side's root by the harness's own component-wise test; everything outside the roots is byte-identical before and after every stretch of engine steps; the peer's root tree equals the dict model of the inside operations (moved out = deleted, moved in = created with its children); declined paths are untouched on both sides; (DECL family) with a folder 'private' declined from the start on both sides (each side holding its own, partly same-named, files) and a folder 'late' that is synchronised first and declined from a flip point on, user edits/creates/deletes/renames inside the zones on either side and a synchronised file moved into a zone cause no effective engine write inside either zone on either side, each side's zones equal that side's own user model at the quiet state, and an undeclined control file keeps synchronising. Both sides modifying the same previously synchronised file of the late-declined folder is finding K23.",
+    "claim": "Held on the executed runs: in histories mixing operations inside the root, outside it (another folder, prefix-sibling folders '/localX' '/local2', the account root) and moves across the boundary in both directions (files, and folders with children in windows of their own), with roots given by path or by id, event filtering on or off and a custom translate that declines a subfolder, every engine-issued create/mkdir/upload/rename/delete targets an object whose path (before and, for rename, after) lies inside that side's root by the harness's own component-wise test; everything outside the roots is byte-identical before and after every stretch of engine steps; the peer's root tree equals the dict model of the inside operations (moved out = deleted, moved in = created with its children); declined paths are untouched on both sides; (DECL family) with a folder 'private' declined from the start on both sides (each side holding its own, partly same-named, files) and a folder 'late' that is synchronised first and declined from a flip point on, user edits/creates/deletes/renames inside the zones on either side and a synchronised file moved into a zone cause no effective engine write inside either zone on either side, each side's zones equal that side's own user model at the quiet state, and an undeclined control file keeps synchronising. Both sides modifying the same previously synchronised file of the late-declined folder is finding K23; (ROOT2 family) with one side moving a synchronised file or folder out of its root while the other side deletes / renames its own copy in the same window (either order, random engine steps in between), every effective engine write names an object inside the root at the moment of the call and everything outside the roots stays as the users left it. The other side *editing* the file is finding K26 (the edit is uploaded into the moved-out file), creating a child in the folder is finding K27 (the engine never becomes quiet).",
     "note": "Trusted: the harness's own prefix test (split on '/', compare components), not Provider.is_subpath. One-sided histories (either side) so that the expected peer tree is a plain model; folder moves across the boundary are isolated by quiescence like folder renames elsewhere (hazard HD).",
     "technique": "runtime monitoring: call ledger with an independent inside-root predicate + outside-snapshot invariance + mirror model of inside operations",
     "plan": {"quick": {"shards": 16, "timeout": 600, "cases": 6000},
              "thorough": {"shards": 32, "timeout": 3000, "cases": 200000}},
     "rule": "case = one-sided history of 5-12 ops (inside ops, outside ops in 4 zones, move-out, move-in; files and folders) x "
             "flavour {oo, of, fo, pp, po, op} x root-by-path|root-by-id x translate {default, declines 'private'} x "
-            "schedule shape; + cases//4 DECL histories (3-8 ops in/into declined zones by both sides, owner-disjoint) and cases//16 contested ones (K23 by predicate); distinct = distinct signature; non-trivial = >= 1 boundary crossing or outside op and >= 1 engine write",
+            "schedule shape; + cases//4 DECL histories (3-8 ops in/into declined zones by both sides, owner-disjoint) and cases//16 contested ones (K23 by predicate); + cases//4 ROOT2 races (peer op round-robin over write/rename/create_child/rename_folder/delete; write -> K26, create_child -> K27 by predicate and symptom); distinct = distinct signature; non-trivial = >= 1 boundary crossing or outside op and >= 1 engine write",
     "assumptions": ["roots '/local' and '/remote'; outside zones '/other', '/localX', '/local2', account root"],
 }
 
@@ -270,6 +270,7 @@ def shard(ctx, acc):
             else:
                 acc.violation("seek:" + probs[0][0], probs[:4], case)
     _shard_decl(ctx, acc, plan)
+    _shard_root2(ctx, acc, plan)
 
 
 def _shard_decl(ctx, acc, plan):
@@ -305,8 +306,31 @@ def _decl_brief(case):
     return c
 
 
+def _shard_root2(ctx, acc, plan):
+    from vlib import family as F
+    for i in F.indices(ctx, plan["cases"] // 4):
+        case = root2_case(ctx.seed, i)
+        probs = run_root2(case, acc)
+        if probs is None:
+            continue
+        if probs:
+            kinds = set(q[0] for q in probs)
+            if case["peer_op"] == "write" and kinds <= {"outside_object_changed_by_engine", "engine_write_outside_root"}:
+                acc.count("failures_attributed_K26")
+                acc.known_hit("K26", {"flavour": case["flavour"], "mover": case["mover"], "peer_op": "write"})
+            elif case["peer_op"] == "create_child" and kinds <= {"not_quiescent"}:
+                acc.count("failures_attributed_K27")
+                acc.known_hit("K27", {"flavour": case["flavour"], "mover": case["mover"], "peer_op": "create_child"})
+            else:
+                c = dict(case)
+                c["root2"] = True
+                acc.violation("root2:" + probs[0][0], probs[:4], c)
+
+
 def conclusive(acc, tier):
     out = []
+    if not acc.counters.get("root2_cases") or not acc.counters.get("root2_engine_writes"):
+        out.append("no two-sided boundary race ran")
     if not acc.counters.get("decl_cases") or not acc.counters.get("decl_engine_writes_after_flip"):
         out.append("no declined-zone case ran (or the control file never synchronised)")
     if not acc.counters.get("boundary_crossings"):
@@ -317,7 +341,7 @@ def conclusive(acc, tier):
 
 
 coverage_extra = E.coverage_extra
-replay = E.replay_with(lambda c: run_decl(c, count=False) if c.get("decl") else run(c, count=False))
+replay = E.replay_with(lambda c: run_decl(c, count=False) if c.get("decl") else (run_root2(c, count=False) if c.get("root2") else run(c, count=False)))
 
 
 # ------------------------------------------------------------------------------------------------ declined zones (DECL)
@@ -514,6 +538,108 @@ def run_decl(case, acc=None, count=True):
             acc.count("engine_steps", sim.steps)
             acc.add("flavours", case["flavour"])
             acc.sigs.add("decl:" + W.signature(dict(case, base=[])))
+        return probs
+    except Exception:           # noqa   harness error: never a verdict
+        acc.errors.append(S.fmt_exc())
+        return None
+    finally:
+        sim.close()
+
+
+# -------------------------------------------------------------------------------------- two-sided boundary races (ROOT2)
+# One side moves a synchronised object out of its root while the other side changes its own copy of that object in the same
+# window.  Only the statement's safety clauses are decided: every engine write names an object inside the root at the moment
+# of the call, and everything outside the roots is left exactly as the users put it.
+
+ROOT2_PEER = ("write", "rename", "create_child", "rename_folder", "delete")
+
+
+def root2_case(seed, index):
+    rng = random.Random("%s:C12root2:%d" % (seed, index))
+    flavour = FLAVS[index % len(FLAVS)]
+    shape = W.SHAPES[(index // len(FLAVS)) % len(W.SHAPES)]
+    peer_op = ROOT2_PEER[(index // (len(FLAVS) * len(W.SHAPES))) % len(ROOT2_PEER)]
+    mover = rng.randrange(2)
+    g = W.Gen(rng)
+    cont = g.contents
+    folderish = peer_op in ("create_child", "rename_folder")
+    pre = [{"side": mover, "op": "mkdir", "path": "//other"}, {"side": mover, "op": "create", "path": "keep.txt", "data": cont.fresh(mover, 12)}]
+    if folderish:
+        pre += [{"side": mover, "op": "mkdir", "path": "d"}, {"side": mover, "op": "create", "path": "d/f.txt", "data": cont.fresh(mover, 700)}]
+        move = {"side": mover, "op": "rendir", "path": "d", "to": "//other/d"}
+        if peer_op == "create_child":
+            pop = {"side": 1 - mover, "op": "create", "path": "d/new.txt", "data": cont.fresh(1 - mover, 12)}
+        else:
+            pop = {"side": 1 - mover, "op": "rendir", "path": "d", "to": "e"}
+    else:
+        pre += [{"side": mover, "op": "create", "path": "f.txt", "data": cont.fresh(mover, 700)}]
+        move = {"side": mover, "op": "rename", "path": "f.txt", "to": "//other/f.txt"}
+        if peer_op == "write":
+            pop = {"side": 1 - mover, "op": "write", "path": "f.txt", "data": cont.fresh(1 - mover, 1500)}
+        elif peer_op == "rename":
+            pop = {"side": 1 - mover, "op": "rename", "path": "f.txt", "to": "g.txt"}
+        else:
+            pop = {"side": 1 - mover, "op": "delete", "path": "f.txt"}
+    first, second = (move, pop) if rng.random() < 0.5 else (pop, move)
+    sched = [["U", first]] + [e for e in g.gap(shape) if e != ["Q"]] + [["U", second]] + [e for e in g.gap(shape) if e != ["Q"]]
+    return {"family": "ROOT2", "flavour": flavour, "shape": shape, "pre": pre, "sched": sched, "mover": mover, "peer_op": peer_op,
+            "index": index, "sim_seed": rng.getrandbits(32), "by_id": bool(rng.randrange(2))}
+
+
+def run_root2(case, acc=None, count=True):
+    acc = acc or Acc()
+    from vlib import load as _load
+    n_unh0 = len(_load.unhandled)
+    sim = S.Sim(case["flavour"], rng=random.Random(case["sim_seed"]), use_root_oids=bool(case.get("by_id")))
+    probs = []
+    ow = OutsideWatch()
+    try:
+        for op in case["pre"]:
+            rec = sim.user(op)
+            if not rec.get("ok"):
+                acc.errors.append("ROOT2 pre-op rejected: %r" % (rec,))
+                return None
+        sim.quiesce()
+        since = len(sim.world.calls)
+        rejected = 0
+        for e in case["sched"]:
+            if e[0] == "U":
+                ow.compare(sim)
+                rec = sim.user(e[1])
+                ow.after_user(sim, rec)
+                if not rec.get("ok"):
+                    rejected += 1       # the engine may legitimately have propagated the other side's op first
+            else:
+                sim.step(e[0])
+        try:
+            sim.quiesce()
+        except S.NotQuiescent as x:
+            probs.append(("not_quiescent", str(x)))
+        ow.compare(sim)
+        unh = [u for u in _load.unhandled[n_unh0:] if u[1] != "Crash"]
+        del _load.unhandled[n_unh0:]
+        if unh:
+            probs.append(("exception_escaped_step", unh[:2]))
+        if ow.problems:
+            probs.append(ow.problems[0])
+        nwrites = 0
+        for c in sim.world.calls[since:]:
+            if c["op"] not in S.WRITES:
+                continue
+            nwrites += 1
+            root = sim.roots[c["side"]]
+            for pth in [c.get("path")] + ([c["to"]] if c.get("to") else []):
+                if pth and not inside(root, pth) and c.get("ok") and c.get("ev"):
+                    probs.append(("engine_write_outside_root", O.brief_call(c)))
+                    break
+        if count:
+            acc.evaluations += 1
+            acc.count("root2_cases")
+            acc.count("root2_engine_writes", nwrites)
+            acc.count("root2_user_ops_rejected", rejected)
+            acc.count("engine_steps", sim.steps)
+            acc.add("root2_peer_ops", case["peer_op"])
+            acc.sigs.add("root2:%s:%s:%s:%d" % (case["flavour"], case["shape"], case["peer_op"], case["index"]))
         return probs
     except Exception:           # noqa   harness error: never a verdict
         acc.errors.append(S.fmt_exc())
